@@ -9,7 +9,7 @@ PROP = "C14"
 LEVEL = "other"
 SELFTEST_PARTS = ("num",)
 WALL_BUDGET = {"quick": 900, "thorough": 5400}
-OPS = ["create_b", "write_a", "delete_a", "rename_a_b", "mkdir_d", "move_a_d", "rendir_d_e", "create_d_a"]
+OPS = ["create_b", "write_a", "delete_a", "rename_a_b", "mkdir_d", "move_a_d", "rendir_d_e", "create_d_a", "create_a"]
 MANGLE_ANY = ["dup-all", "dup-first", "dup-last", "single-batches", "walk-after", "walk-before", "idless-copy", "vanished-exists", "vanished-trashed",
               "stale-exists", "replay-old"]
 MANGLE_IDSTABLE = ["reverse", "rotate", "delay-first", "delay-all-one-round", "drop-paths"]
@@ -184,7 +184,7 @@ def _factory(params, env=None):
         def ms(calls, name):
             out = {}
             for c in calls:
-                if c[1] == name:
+                if c[1] == name and not any(isinstance(x, dict) and x.get("existed") is False for x in c):       # a delete of an object that is already gone removes nothing
                     key = (c[0], tuple(a for a in c[2] if isinstance(a, str)))
                     out[key] = out.get(key, 0) + 1
             return out
@@ -224,7 +224,7 @@ def jobs(tier):
                 out.append({"harness": "mangle", "params": {"flavour": f, "base": 2, "nops": 1 if q else 2, "slots": 1, "first": [side, op]},
                             "label": "%s/%d-ops/first=%d:%s" % (f, 1 if q else 2, side, op)})
         if q:
-            for op in ("write_a", "rename_a_b", "mkdir_d"):
+            for op in ("write_a", "rename_a_b", "delete_a"):
                 out.append({"harness": "mangle", "params": {"flavour": f, "base": 2, "nops": 2, "slots": 1, "first": [0, op]}, "label": "%s/2-ops/first=0:%s" % (f, op)})
     return out
 
